@@ -773,11 +773,21 @@ def has_side_effect(node: ast.AST, safe_callable_whitelist: Collection[str] = fr
     return True
 
 
+def splitlines(source: str) -> Sequence[str]:
+    """Split source code into lines, keeping the line endings.
+
+    Unlike str.splitlines(), this only splits on the line endings that end a line of python code.
+    A form feed or a unicode line separator, for example inside a string, does not start a new
+    line, and would make all line numbers after it point to the wrong place.
+    """
+    return re.findall(r"[^\r\n]*(?:\r\n|\r|\n)|[^\r\n]+", source)
+
+
 @functools.lru_cache(maxsize=100)
 def _get_line_start_charnos(source: str) -> Sequence[int]:
     start = 0
     charnos = []
-    for line in source.splitlines(keepends=True):
+    for line in splitlines(source):
         charnos.append(start)
         start += len(line)
     return tuple(charnos)
@@ -901,7 +911,7 @@ def has_ignore_comment(source: str, rng: Range) -> bool:
     pattern = re.compile(r"#\s*pyrefact\s*:\s*(skip_file|ignore)")
 
     character_count = 0
-    for line in source.splitlines(keepends=True):
+    for line in splitlines(source):
         line_start = character_count
         line_end = character_count = line_start + len(line)
 
